@@ -39,11 +39,27 @@ def _chunk(args):
         key = (fam, N, idx % 2)
         if key not in systems:
             systems[key] = evolve.System(fam, N, seed, idx % 2)
+        import signal
+        import time
+
+        class _Timeout(BaseException):
+            pass
+
+        def _alarm(signum, frame):
+            raise _Timeout()
+        signal.signal(signal.SIGALRM, _alarm)
+        signal.alarm(120)
+        t0 = time.time()
         try:
             r = evolve.run_case(systems[key], case, idx, seed)
+        except _Timeout:
+            r = {"viol": [], "meas": [{"timeout": True, "case": case}], "nontrivial": False}
         except Exception as e:
             import traceback
             r = {"viol": [(f"{PID}:harness-exception:{type(e).__name__}", traceback.format_exc(limit=5), {"case": case})], "meas": [], "nontrivial": False}
+        finally:
+            signal.alarm(0)
+        r["wall"] = time.time() - t0
         out.append((idx, r))
     return out
 
@@ -136,6 +152,7 @@ def run(ctx, imag=False):
     n = 64
     res = pmap(_chunk, [(jobs[i::n], ctx.seed) for i in range(n) if jobs[i::n]], chunksize=1)
     stats = {}
+    slow = []
     for st_, o in res:
         if st_ != "ok":
             raise MachineryError("evolve worker failed: " + o)
@@ -148,7 +165,11 @@ def run(ctx, imag=False):
                 elif key.split(":")[0] in ("C13", "C06"):
                     # reported by their own checks; kept in the evidence notes here
                     stats.setdefault("foreign", []).append(key)
+            slow.append((r.get("wall", 0), idx))
             for m in r["meas"]:
+                if m.get("timeout"):
+                    stats.setdefault("timeouts", []).append(m["case"])
+                    continue
                 if "err" in m:
                     k = f"{m['scheme']}/p={m['p']}/adaptive={m['adaptive']}/{m['solver']}/td={m['td']}/{m['form']}/full={m['full_bond']}"
                     s = stats.setdefault(k, {"n": 0, "max_err": 0.0})
@@ -165,6 +186,11 @@ def run(ctx, imag=False):
                     s = stats.setdefault(k, {"n": 0, "max": 0.0})
                     s["n"] += 1
                     s["max"] = max(s["max"], m["solver_diff"])
+    ctx.notes["cases_stopped_after_120s"] = stats.pop("timeouts", [])
+    slow.sort(reverse=True)
+    ctx.notes["slowest_cases"] = [{"wall_s": round(w, 1), "cfg": cases[i]["cfg"], "calls": cases[i]["calls"]} for w, i in slow[:5]]
+    if len(ctx.notes["cases_stopped_after_120s"]) > max(3, len(cases) // 20):
+        raise MachineryError(f"{len(ctx.notes['cases_stopped_after_120s'])} evolution cases did not finish within 120 s")
     ctx.notes["measured"] = {k: v for k, v in sorted(stats.items()) if k != "foreign"}
     ctx.notes["foreign_keys_seen"] = sorted(set(stats.get("foreign", [])))
     if not imag:
